@@ -4,7 +4,7 @@
 use crate::codecs::{Repr, SeqSpec};
 use crate::model::{CodecId, ALL_CODECS};
 use crate::obs::{install_panic_hook, PResult};
-use crate::props::{c01, c03, c06, c07, c11, c19};
+use crate::props::{c01, c02, c03, c04, c06, c07, c10, c11, c12, c18, c19, c20};
 use std::sync::Once;
 
 /// minimal byte reader (all-zero once exhausted, so every input decodes)
@@ -56,7 +56,7 @@ impl<'a> Bytes<'a> {
             let n = s.u8() as usize % (mp + 1);
             s.codes(id, n)
         };
-        match self.u8() % 17 {
+        match self.u8() % 25 {
             0 => Repr::Collect,
             1 => Repr::Parse,
             2 => Repr::FromVec,
@@ -74,11 +74,43 @@ impl<'a> Bytes<'a> {
                 Repr::Edited { junk: self.codes(id, n), at: self.u16() }
             }
             15 => Repr::RemovedPrefix { pre: pre(self) },
-            _ => {
+            16 => {
                 let n = self.u8() as usize % 70;
                 Repr::Truncated { post: self.codes(id, n) }
             }
+            17 => Repr::Appended { split: self.u16(), pre: pre(self) },
+            18 => Repr::Prepended { split: self.u16(), pre: pre(self) },
+            19 => Repr::InsertedIntoEmpty { pre: pre(self), cleared: self.u8() % 2 == 0 },
+            20 => Repr::FromBitSlice { head: self.u8() % 64 },
+            21 => {
+                let n = self.u8() as usize % 70;
+                Repr::Refilled { junk: self.codes(id, n) }
+            }
+            22 => {
+                let n = self.u8() as usize % 40;
+                Repr::TruncExtend { split: self.u16(), junk: self.codes(id, n) }
+            }
+            23 => Repr::RawBitVec { head: 1 + self.u8() % 63 },
+            _ => Repr::Collect,
         }
+    }
+    /// a representation of an owned sequence whose word image starts at bit 0 (what C04 quantifies over)
+    pub fn aligned_owned_spec(&mut self, id: CodecId, max: usize) -> SeqSpec {
+        let mut s = self.owned_spec(id, max);
+        if matches!(s.repr, Repr::RawBitVec { .. } | Repr::FromBitSlice { .. }) {
+            s.repr = Repr::Collect;
+        }
+        s
+    }
+    pub fn words(&mut self, max: usize) -> Vec<u64> {
+        let n = self.u8() as usize % (max + 1);
+        (0..n)
+            .map(|_| match self.u8() % 6 {
+                0 => 0,
+                1 => u64::MAX,
+                _ => (0..8).fold(0u64, |acc, _| acc << 8 | self.u8() as u64),
+            })
+            .collect()
     }
     pub fn spec(&mut self, id: CodecId, max: usize) -> SeqSpec {
         let repr = self.repr(id);
@@ -166,7 +198,12 @@ pub fn c06_edits(data: &[u8]) -> PResult {
                     c06::Op::Truncate(b.u16())
                 } else {
                     let n = b.u8() as usize % 40;
-                    c06::Op::ExtendFiltered(b.codes(id, n), b.codes(id, 1)[0], b.u8() % 2 == 0)
+                    if b.u8() % 2 == 0 {
+                        c06::Op::ExtendFiltered(b.codes(id, n), b.codes(id, 1)[0], b.u8() % 2 == 0)
+                    } else {
+                        let k = b.u8() as usize % 40;
+                        c06::Op::ExtendChained(b.codes(id, n), b.codes(id, k), b.codes(id, 1)[0], b.u8() % 8)
+                    }
                 }
             }
             14 => match b.u8() % 4 {
@@ -194,7 +231,129 @@ pub fn c07_revcomp(data: &[u8]) -> PResult {
     }
 }
 
-pub const TARGETS: [&str; 6] = ["c01_parse", "c19_trim", "c03_slice", "c11_iter", "c06_edits", "c07_revcomp"];
+/// pairs in a generated relation, every pairing of holder types; two windows of one parent (C02)
+pub fn c02_pairs(data: &[u8]) -> PResult {
+    let mut b = Bytes::new(data);
+    let id = b.codec();
+    if b.u8() % 5 == 0 {
+        let parent = b.spec(id, 160);
+        return c02::same_parent_dispatch(&c02::SameParent { codec: id, parent, i: b.u16(), j: b.u16(), len: b.u16() });
+    }
+    let a = b.spec(id, 160);
+    let rel = match b.u8() % 12 {
+        0 | 1 => c02::Rel::Identical,
+        2 | 3 => c02::Rel::Subst(b.u16(), b.u8()),
+        4 => c02::Rel::Prefix(b.u16()),
+        5 => c02::Rel::Suffix(b.u16()),
+        6 => c02::Rel::Appended(b.u8()),
+        7 => c02::Rel::TwoSubst(b.u16(), b.u8(), b.u8()),
+        8 => c02::Rel::Constant(b.u8()),
+        9 => c02::Rel::RotatedWords(b.u8()),
+        10 => c02::Rel::SubstEdge { from_end: b.u8() % 2 == 0, off: b.u8(), sym: b.u8() },
+        _ => {
+            let n = b.len(60);
+            c02::Rel::Independent(b.codes(id, n))
+        }
+    };
+    let b_repr = b.repr(id);
+    c02::dispatch(&c02::Case { codec: id, a, rel, b_repr })
+}
+
+/// integers of short windows, word images of owned sequences, arbitrary images (C04)
+pub fn c04_image(data: &[u8]) -> PResult {
+    let mut b = Bytes::new(data);
+    let id = b.codec();
+    match b.u8() % 4 {
+        0 => c04::int_dispatch(&c04::IntCase { codec: id, s: b.spec(id, 70) }),
+        1 => c04::raw_dispatch(&c04::RawCase { codec: id, words: b.words(4) }),
+        _ => {
+            let s = b.aligned_owned_spec(id, 160);
+            let counts = (0..b.u8() % 4).map(|_| b.u16()).collect();
+            c04::image_dispatch(&c04::ImgCase { codec: id, s, counts })
+        }
+    }
+}
+
+/// ordering of owned sequences: triples in generated relations (C10)
+pub fn c10_order(data: &[u8]) -> PResult {
+    let mut b = Bytes::new(data);
+    let id = b.codec();
+    let a = b.owned_spec(id, 130);
+    let related = |b: &mut Bytes, base: &[u8]| -> SeqSpec {
+        let mut codes = base.to_vec();
+        match b.u8() % 5 {
+            0 => {}
+            1 | 2 => {
+                // a few substitutions
+                for _ in 0..1 + b.u8() % 3 {
+                    if !codes.is_empty() {
+                        let at = crate::obs::scale16(b.u16(), codes.len() - 1);
+                        codes[at] = b.codes(id, 1)[0];
+                    }
+                }
+            }
+            3 => {
+                // fresh prefix, shared suffix
+                let cut = crate::obs::scale16(b.u16(), codes.len());
+                let fresh = b.codes(id, cut);
+                codes[..cut].copy_from_slice(&fresh);
+            }
+            _ => {
+                let n = b.len(130);
+                codes = b.codes(id, n);
+            }
+        }
+        SeqSpec { codes, repr: { let mut s = b.owned_spec(id, 0); std::mem::replace(&mut s.repr, Repr::Collect) } }
+    };
+    let bb = related(&mut b, &a.codes);
+    let cc = related(&mut b, &bb.codes);
+    c10::seq_dispatch(&c10::SeqTriple { codec: id, a, b: bb, c: cc })
+}
+
+/// IUPAC set algebra: b is derived from a position by position (C12)
+pub fn c12_sets(data: &[u8]) -> PResult {
+    let mut b = Bytes::new(data);
+    let id = CodecId::Iupac;
+    let a = b.spec(id, 130);
+    let mode = b.u8() % 4;
+    let codes: Vec<u8> = a
+        .codes
+        .iter()
+        .map(|x| {
+            let k = b.u8();
+            match mode {
+                0 => k % 16,
+                1 => x & (k % 16),
+                2 => x | (k % 16),
+                // subsets with stretches of gaps and rare violations
+                _ => if k < 150 { 0 } else if k < 250 { x & (k % 16) } else { k % 16 },
+            }
+        })
+        .collect();
+    let b_repr = b.repr(id);
+    let c = b.spec(id, 40);
+    c12::dispatch(&c12::Case { a, b: SeqSpec { codes, repr: b_repr }, c })
+}
+
+/// serialization round trips of sequences in every provenance and of arbitrary images (C18)
+pub fn c18_serde(data: &[u8]) -> PResult {
+    let mut b = Bytes::new(data);
+    let id = b.codec();
+    if b.u8() % 4 == 0 && (id.model().all_patterns_valid() || id == CodecId::Text) {
+        let words = b.words(6);
+        return c18::raw_dispatch(&c18::RawCase { codec: id, words, count: b.u16() });
+    }
+    c18::dispatch(&c18::Case { codec: id, s: b.owned_spec(id, 160) })
+}
+
+/// soft-masking of sequences over the two masked codecs (C20)
+pub fn c20_mask(data: &[u8]) -> PResult {
+    let mut b = Bytes::new(data);
+    let id = if b.u8() % 2 == 0 { CodecId::MDna } else { CodecId::MIupac };
+    c20::dispatch(&c20::Case { codec: id, s: b.owned_spec(id, 160) })
+}
+
+pub const TARGETS: [&str; 12] = ["c01_parse", "c19_trim", "c03_slice", "c11_iter", "c06_edits", "c07_revcomp", "c02_pairs", "c04_image", "c10_order", "c12_sets", "c18_serde", "c20_mask"];
 
 /// entry for the fuzz targets: Err(message) is a property violation
 pub fn run(target: &str, data: &[u8]) -> Result<(), String> {
@@ -207,6 +366,12 @@ pub fn run(target: &str, data: &[u8]) -> Result<(), String> {
         "c11_iter" => c11_iter(data),
         "c06_edits" => c06_edits(data),
         "c07_revcomp" => c07_revcomp(data),
+        "c02_pairs" => c02_pairs(data),
+        "c04_image" => c04_image(data),
+        "c10_order" => c10_order(data),
+        "c12_sets" => c12_sets(data),
+        "c18_serde" => c18_serde(data),
+        "c20_mask" => c20_mask(data),
         _ => return Err(format!("unknown target {target}")),
     };
     r.map(|_| ()).map_err(|f| format!("[{}] {}", f.site, f.msg))
